@@ -147,3 +147,16 @@ def mixed(rng):
     if k < 0.5: return structured(rng)
     if k < 0.85: return soup(rng)
     return structured(rng, 2) + soup(rng, 3)
+
+
+def corpus_docs(limit=None):
+    """the repository's own test documents (tests/*/*.text), as bytes"""
+    import glob, os
+    root = os.environ.get("VERIF_REPO", "/repo")
+    out = []
+    for p in sorted(glob.glob(os.path.join(root, "tests", "MMD6Tests", "*.text")) + glob.glob(os.path.join(root, "tests", "CriticMarkup", "*.text"))):
+        try:
+            out.append(open(p, "rb").read().replace(b"\0", b" "))
+        except OSError:
+            pass
+    return out[:limit] if limit else out
